@@ -38,6 +38,13 @@ import (
 
 // Stream represents a CEDAR protocol stream over a TCP connection
 type Stream struct {
+	// recvFailed latches the first integrity failure on the receive side of a keyed
+	// stream (a frame that does not authenticate, an unauthenticated empty frame, an
+	// invalid header): whatever arrives afterwards can no longer be an in-order
+	// continuation of what the peer sent, so every later receive reports the same error
+	// instead of handing out data from a stream that lost a frame.
+	recvFailed error
+
 	conn   net.Conn
 	reader io.Reader
 	writer io.Writer
@@ -288,10 +295,21 @@ func (s *Stream) SendPartialMessage(ctx context.Context, data []byte) error {
 	return s.sendMessageWithEnd(ctx, data, EndFlagPartial) // More frames follow
 }
 
+// failRecv records err as the receive side's terminal error when the stream is keyed.
+func (s *Stream) failRecv(err error) error {
+	if s.gcm != nil && s.recvFailed == nil {
+		s.recvFailed = err
+	}
+	return err
+}
+
 // ReceiveFrame receives and deframes a message from the stream
 // Uses HTCondor CEDAR protocol format:
 // [1 byte: end flag] [4 bytes: message length in network order] [message data]
 func (s *Stream) ReceiveFrame(ctx context.Context) ([]byte, error) {
+	if s.recvFailed != nil {
+		return nil, s.recvFailed
+	}
 	// Read HTCondor-style header (5 bytes)
 	header := make([]byte, NormalHeaderSize)
 	if err := s.readWithContext(ctx, header); err != nil {
@@ -304,12 +322,12 @@ func (s *Stream) ReceiveFrame(ctx context.Context) ([]byte, error) {
 
 	// Validate message size
 	if messageLength > MaxMessageSize {
-		return nil, fmt.Errorf("message too large: %d bytes (max %d)", messageLength, MaxMessageSize)
+		return nil, s.failRecv(fmt.Errorf("message too large: %d bytes (max %d)", messageLength, MaxMessageSize))
 	}
 
 	// Validate end flag (HTCondor uses values 0-10)
 	if endFlag > 10 {
-		return nil, fmt.Errorf("invalid end flag: %d", endFlag)
+		return nil, s.failRecv(fmt.Errorf("invalid end flag: %d", endFlag))
 	}
 
 	// Handle zero-length messages
@@ -318,7 +336,7 @@ func (s *Stream) ReceiveFrame(ctx context.Context) ([]byte, error) {
 		// empty frame on an encrypting stream was not produced by the peer's
 		// cipher. Reject it instead of handing out unauthenticated framing.
 		if s.gcm != nil && s.encrypted {
-			return nil, fmt.Errorf("unauthenticated empty frame on encrypted stream")
+			return nil, s.failRecv(fmt.Errorf("unauthenticated empty frame on encrypted stream"))
 		}
 		return []byte{}, nil
 	}
@@ -334,7 +352,7 @@ func (s *Stream) ReceiveFrame(ctx context.Context) ([]byte, error) {
 	if s.gcm != nil && s.encrypted {
 		decryptedData, err := s.decryptDataWithAAD(messageData, header)
 		if err != nil {
-			return nil, fmt.Errorf("failed to decrypt message: %w", err)
+			return nil, s.failRecv(fmt.Errorf("failed to decrypt message: %w", err))
 		}
 		clearData = decryptedData
 	} else {
@@ -353,6 +371,9 @@ func (s *Stream) ReceiveFrame(ctx context.Context) ([]byte, error) {
 
 // ReceiveFrameWithEnd receives a message and returns both data and end flag
 func (s *Stream) ReceiveFrameWithEnd(ctx context.Context) ([]byte, byte, error) {
+	if s.recvFailed != nil {
+		return nil, 0, s.recvFailed
+	}
 	// Read HTCondor-style header (5 bytes)
 	header := make([]byte, NormalHeaderSize)
 	if err := s.readWithContext(ctx, header); err != nil {
@@ -365,12 +386,12 @@ func (s *Stream) ReceiveFrameWithEnd(ctx context.Context) ([]byte, byte, error) 
 
 	// Validate message size
 	if messageLength > MaxMessageSize {
-		return nil, 0, fmt.Errorf("message too large: %d bytes (max %d)", messageLength, MaxMessageSize)
+		return nil, 0, s.failRecv(fmt.Errorf("message too large: %d bytes (max %d)", messageLength, MaxMessageSize))
 	}
 
 	// Validate end flag (HTCondor uses values 0-10)
 	if endFlag > 10 {
-		return nil, 0, fmt.Errorf("invalid end flag: %d", endFlag)
+		return nil, 0, s.failRecv(fmt.Errorf("invalid end flag: %d", endFlag))
 	}
 
 	// Handle zero-length messages
@@ -379,7 +400,7 @@ func (s *Stream) ReceiveFrameWithEnd(ctx context.Context) ([]byte, byte, error) 
 		// empty frame on an encrypting stream was not produced by the peer's
 		// cipher. Reject it instead of letting it end (or be taken for) a message.
 		if s.gcm != nil && s.encrypted {
-			return nil, 0, fmt.Errorf("unauthenticated empty frame on encrypted stream")
+			return nil, 0, s.failRecv(fmt.Errorf("unauthenticated empty frame on encrypted stream"))
 		}
 		// Track header for AAD digest calculation
 		if s.recvDigest != nil && s.finalRecvDigest == nil {
@@ -400,7 +421,7 @@ func (s *Stream) ReceiveFrameWithEnd(ctx context.Context) ([]byte, byte, error) 
 	if s.gcm != nil && len(messageData) > 0 {
 		decryptedData, err := s.decryptDataWithAAD(messageData, header)
 		if err != nil {
-			return nil, 0, fmt.Errorf("failed to decrypt message: %w", err)
+			return nil, 0, s.failRecv(fmt.Errorf("failed to decrypt message: %w", err))
 		}
 		clearData = decryptedData
 	} else {
@@ -701,6 +722,7 @@ func (s *Stream) SetSymmetricKey(key []byte) error {
 	// Reset counters
 	s.encryptCounter = 0
 	s.decryptCounter = 0
+	s.recvFailed = nil // a newly installed key starts a fresh protected receive side
 
 	// Finalize AAD digest state for HTCondor compatibility
 	// The digests should contain all data sent/received before encryption was enabled
